@@ -56,7 +56,10 @@ def g_arith(rng, d):
     if d > 0 and rng.random() < 0.03:
         # a truth value in an arithmetic position ('not a + 1', '(a < b)*2', 'not a < b'): the printer has to
         # parenthesise by precedence, whatever the operand means
-        return rng.choice([["not", g_bool(rng, d - 1)], g_bool(rng, d - 1), ["not", ["var", rng.choice(BVARS)]]])
+        e = rng.choice([["not", g_bool(rng, d - 1)], g_bool(rng, d - 1), ["not", ["var", rng.choice(BVARS)]]])
+        # (a truth-value LITERAL is only generated in boolean positions: pymbolic's parser asserts that the
+        # operands of arithmetic are not literal booleans, 'True*x' is not an expression it reads)
+        return e if e[0] != "bool" else ["var", rng.choice(BVARS)]
     if d <= 0 or r < 0.22:
         if rng.random() < 0.35:
             return ["num", rng.choice(NUMS)]
@@ -91,6 +94,8 @@ def g_arith(rng, d):
 
 def g_bool(rng, d):
     r = rng.random()
+    if rng.random() < 0.04:
+        return ["bool", rng.choice([True, False])]        # truth-value literals ('True', 'False')
     if d <= 0 or r < 0.2:
         if r < 0.1:
             return ["var", rng.choice(BVARS)]
@@ -107,7 +112,7 @@ def g_bool(rng, d):
 
 
 L_A = [["var", "x"], ["var", "<state>y"], ["num", 2], ["num", -1.5]]
-L_B = [["var", "<cond>c"]]
+L_B = [["var", "<cond>c"], ["bool", True]]
 
 
 def exh_level(prev_a, prev_b):
@@ -418,6 +423,15 @@ def run_shard(shard, rec):
             rec.case(["tagged", n])
             if not ok:
                 rec.violation("tagged-identifier-misparsed", f"parse('{n} + 1') = {got!r}", {"name": n})
+        # an expression that is nothing but one atom: literals, names, tagged names, each alone
+        atoms = [["bool", True], ["bool", False], ["num", 0], ["num", 1], ["num", 2.5], ["num", 1e22],
+                 ["var", "x"], ["var", "<state>y"], ["var", "<dt>"], ["var", "<cond>_0"], ["var", "kk"],
+                 ["var", "nan"], ["var", "inf"], ["var", "None"], ["var", "true"], ["var", "andy"],
+                 ["var", "not_a"], ["var", "if_"], ["var", "else0"], ["var", "e1"], ["var", "j"]]
+        for a in atoms:
+            check_expr(a, rec)
+            rec.count("lone_atoms")
+            rec.case(["atom", a])
 
 
 def replay(witness, rec):
